@@ -306,6 +306,7 @@ TYPES = types()
 def setup(ctx):
     gcustom.ensure_registered()
     ctx.count("refused_registrations_before_the_workload", gcustom.refused_registrations())
+    ctx.count("refused_registrations_that_left_something_behind", len(gcustom.LEFT_BEHIND))
 
 
 def wl_builtin(ctx, rng, i):
@@ -521,6 +522,8 @@ def wl_containers(ctx, rng, i):
     check_object(ctx, obj, "2.0", "container", rng, full_lattice=(i % 10 == 0))
 
 
+# pure by their documentation: a sample of the calls is repeated in a fresh interpreter, in reverse order (stixmon/echo.py)
+ECHO = ["stix2.serialization:serialize"]
 WORKLOADS = [
     Workload("builtin", wl_builtin, quick=lambda: len(TYPES) * 20, thorough=lambda: len(TYPES) * 600),
     Workload("containers20", wl_containers, quick=lambda: len(SCO20) * 2, thorough=lambda: len(SCO20) * 200),
